@@ -323,6 +323,11 @@ def fn_to_sympy(
 
     """
     try:
+        if inspect.unwrap(fn) is not fn:
+            # inspect.getsource follows __wrapped__: the source read below would be
+            # the undecorated function's, not what the decorated one computes
+            msg = "Decorated functions that wrap another function are not supported"
+            raise NotImplementedError(msg)
         fn_def = get_fn_ast(fn)
         fn_args = _positional_params(fn_def)
 
